@@ -5,6 +5,12 @@ Lemmas/NoIntVal.lean — C13, "no internal error": the value-level invariant.
 index in it is below `N` (the number of statements), and an address expression has an address on one side.
 Everything the parser builds is `Good` (for every `N`), and `Value.resolve` keeps values `Good` when the
 symbol table is.
+
+The two bounds are independent: `N` only bounds the address indices, the 16-bit bound on numbers does not depend
+on it.  `Good 0` therefore says "no label inside, numbers of 16 bits"; that is what holds of a preset statement
+address (`PkgOK.addr`, `StmtOK.addr`), and it is why the back end needs no bound on the number of statements
+(`back_ne_internal`): since fix 9045646 an address index is only ever used to look a statement up, never as a
+number.
 -/
 import CoCoVerif.Lemmas.FrontPcr
 import CoCoVerif.Lemmas.LayoutBranch
@@ -22,6 +28,15 @@ def Value.Good (N : Nat) : Value → Prop
 
 theorem Value.Good.ne_pyNone {N : Nat} {v : Value} (h : v.Good N) : v ≠ .pyNone := by
   rintro rfl; exact h
+
+/-- the bound on the address indices may be raised; in particular `Good 0` ("no label inside") implies every
+`Good N` -/
+theorem Value.Good.mono {M N : Nat} (hMN : M ≤ N) : ∀ {v : Value}, v.Good M → v.Good N := by
+  intro v
+  induction v with
+  | address i m => intro h; exact Nat.lt_of_lt_of_le h hMN
+  | expr l r op m ae ihl ihr => intro h; exact ⟨ihl h.1, ihr h.2.1, h.2.2⟩
+  | _ => intro h; exact h
 
 /-- the `.int` of a good value: an index below `N` for an address, a 16-bit magnitude otherwise -/
 theorem Value.Good.int {N : Nat} {v : Value} (h : v.Good N) :
